@@ -77,6 +77,10 @@ def main(argv=None):
         ltable = {f.key: local_bindings(f.node, defs=True) for f in t.nontest_funcs()}
         ltable = {k: v for k, v in ltable.items() if v}
         out.with_name("local_names.json").write_text(json.dumps(ltable, sort_keys=True))
+        from .loader import scoped_names
+
+        stable = {f.key: [x[:3] for x in scoped_names(f.node)] for f in t.nontest_funcs()}
+        out.with_name("scoped_names.json").write_text(json.dumps({k: v for k, v in stable.items() if v}, sort_keys=True))
         # the same table after the load-time normalisations (second renaming pass)
         del os.environ["VERIF_NO_CANON"]
         os.environ["VERIF_NO_CANON2"] = "1"
@@ -84,6 +88,11 @@ def main(argv=None):
         ntable = {f.key: local_bindings(f.node, defs=True) for f in t2.nontest_funcs()}
         ntable = {k: v for k, v in ntable.items() if v}
         out.with_name("local_names_norm.json").write_text(json.dumps(ntable, sort_keys=True))
+        stable = {f.key: [x[:3] for x in scoped_names(f.node)] for f in t2.nontest_funcs()}
+        out.with_name("scoped_names_norm.json").write_text(json.dumps({k: v for k, v in stable.items() if v}, sort_keys=True))
+        from .loader import skeleton_tokens
+
+        out.with_name("func_skeletons.json").write_text(json.dumps({f.key: skeleton_tokens(f.node) for f in t2.nontest_funcs()}, sort_keys=True))
         print(f"pinned parameter names of {len(table)} functions")
         return 0
     if args.cmd == "check":
